@@ -37,7 +37,14 @@ for key in sorted(os.listdir(S)):
         return any(int(x.split(":")[1]) > 0 for x in c.split() if ":" in x)
     status = "not evaluated"
     if ev:
-        status = "caught" if caught(first) else ("caught after strengthening" if (caught(last) or note) else "MISSED")
+        if caught(first):
+            status = "caught"
+        elif note.startswith("MISSED"):
+            status = "MISSED"
+        elif note.startswith("not caught by the quick"):
+            status = "thorough tier only"
+        else:
+            status = "caught after strengthening" if (caught(last) or note) else "MISSED"
     rows.append((key, meta.get("property", key[:3]), (meta.get("summary") or "")[:160].replace("|", "/"),
                  (meta.get("needs") or "")[:160].replace("|", "/"), first, status, note))
 out = ["# Seeded changes (independent sub-agents, property text only) and which checks catch them", "",
@@ -47,4 +54,4 @@ for r in rows:
 open(os.path.join(S, "SUMMARY.md"), "w").write("\n".join(out) + "\n")
 print(len(rows), "changes;", sum(r[5] == "caught" for r in rows), "caught at first run;",
       sum(r[5].startswith("caught after") for r in rows), "after strengthening;",
-      sum(r[5] == "MISSED" for r in rows), "missed")
+      sum(r[5] == "thorough tier only" for r in rows), "thorough only;", sum(r[5] == "MISSED" for r in rows), "missed")
